@@ -24,7 +24,8 @@ def configs(tier):
         Config(front="wsgi", backend="tree", prefix="/", features=feats | {"recreate"}, names=names, bodies=bodies, props=props, oracles=set()),
         Config(front="aio", backend="bare", prefix="/dav/", features=feats, names=names, bodies=bodies, props=props, oracles=set()),
     ]
-    out.append(Config(front="wsgi", backend="tree", prefix="/", features={"sync", "sync-held", "restart"}, names=names, bodies=bodies, props=props, oracles=set(), label="tree/wsgi+held-token"))
+    # (this configuration also has a member whose name starts with a dot)
+    out.append(Config(front="wsgi", backend="tree", prefix="/", features={"sync", "sync-held", "restart"}, names=dict(names, cal=["a.ics", ".b.ics"]), bodies=bodies, props=props, oracles=set(), label="tree/wsgi+held-token"))
     out.append(Config(front="wsgi", backend="tree", prefix="/", features={"sync", "two-workers"}, names=names, bodies={"cal": ["X", "X2"], "ab": ["K"], "c2": []}, props={}, oracles=set(), label="tree/wsgi+two-workers"))
     if tier == "thorough":
         out += [
